@@ -216,7 +216,7 @@ def check_case(p, ctx):
         extra_k = float(np.max(np.abs(Pk[:n_c, :n_c]) @ np.full(n_c, 5e-4)))
         sK = infer.svals(K)
         condK = float(sK[-1] / sK[0]) if sK[0] > 0 else 0.0
-        tol = max(tol, 3e-4, 2e-10 / max(condK, 1e-9)) + 3.0 * extra_k
+        tol = max(tol, 3e-4, 1e-7 / max(condK, 1e-9)) + 3.0 * extra_k
         if tol > 0.05:
             ctx.skip("conditioning: tolerance > 0.05")
             return
